@@ -376,7 +376,9 @@ qint64 Socket::readData(char *data, qint64 maxlen)
 
     // Ensure that no more than the requested amount or the size of the buffer is read
     qint64 size = qMin(static_cast<qint64>(d->readBuffer.size()), maxlen);
-    memcpy(data, d->readBuffer.constData(), size);
+    if (size > 0) {
+        memcpy(data, d->readBuffer.constData(), size);
+    }
 
     // Remove the amount that was read from the buffer
     d->readBuffer.remove(0, size);
